@@ -184,6 +184,10 @@ impl FlowSetBody {
         match id {
             _ if id == TEMPLATE_ID => {
                 let (i, templates) = Templates::parse(i)?;
+                // A template id has one meaning at a time: the latest definition wins.
+                for template in templates.templates.iter() {
+                    parser.options_templates.remove(&template.template_id);
+                }
                 parser.templates.extend(
                     templates
                         .templates
@@ -194,6 +198,9 @@ impl FlowSetBody {
             }
             _ if id == OPTIONS_TEMPLATE_ID => {
                 let (i, options_templates) = OptionsTemplates::parse(i)?;
+                for template in options_templates.templates.iter() {
+                    parser.templates.remove(&template.template_id);
+                }
                 parser.options_templates.extend(
                     options_templates
                         .templates
